@@ -81,7 +81,7 @@ def gen(rng, tier):
     subs = {}
     for s in range(nsubs):
         nfail = rng.choice([0, 0, 1, 2])
-        subs[str(s)] = {"script": ["ErrA"] * nfail + [rng.choice(["ok", "ok", "ErrB"])], "dur": rng.choice([0, 0.05, 0.1, 0.3])}
+        subs[str(s)] = {"script": ["ErrA"] * nfail + [rng.choice(["ok", "ok", "ErrB", "FalsyErr"])], "dur": rng.choice([0, 0.05, 0.1, 0.3])}
     nclients = rng.choice([1, 2])
     clients = [[] for _ in range(nclients)]
     for s in range(nsubs):
